@@ -165,6 +165,37 @@ def check_writer(ctx, m, fn: ast.FunctionDef, label: str, informational: bool = 
                "scratch node-local): rename(2) then fails with EXDEV, and a copying fallback truncates the live state file"
                % (label, short(foreign, 40)),
                construct="%s: temporary file not in the scratch directory" % source.qualname(fn))
+    # A7: the bytes reach the temporary file through a writer that loops until everything is written or raises (a Python file object,
+    # json/yaml dump into one, shutil copies).  os.write() is write(2): it returns how much was accepted and does NOT loop - when the
+    # count is dropped, a short write (ENOSPC / quota / RLIMIT_FSIZE boundary: the call that crosses it returns a short count, only the
+    # next one raises) is taken for a complete one and the rename publishes a prefix of the document
+    raw = [c for c in source.calls_in(fn, include_nested=True) if call_name(c) in ("os.write", "os.pwrite", "os.writev")]
+    for c in raw:
+        st_ = source.stmt_of(c)
+        dropped = isinstance(st_, ast.Expr) and st_.value is c
+        if not dropped and isinstance(st_, ast.Assign) and st_.value is c and len(st_.targets) == 1 and isinstance(st_.targets[0], ast.Name):
+            nm = st_.targets[0].id
+            dropped = not any(isinstance(x, ast.Name) and x.id == nm and isinstance(x.ctx, ast.Load) for x in ast.walk(fn))
+        ctx.ob("C14.A7-complete-writes", c, not dropped,
+               "%s: the count returned by %s is consumed" % (label, call_name(c)) if not dropped else
+               "%s: %s is write(2) - it may accept only part of the buffer (disk full, quota, file-size limit: the short count comes first, "
+               "the error only with the next call) and its count is dropped: no exception reaches the publisher's handler, the rename "
+               "installs a prefix of the document over the good state file, which then cannot be loaded" % (label, short(c, 60)),
+               construct="%s: raw write with a dropped count" % source.qualname(fn))
+    if not raw:
+        ctx.ob("C14.A7-complete-writes", fn, True, "%s: no raw os.write in the writer: data goes through file objects, which write everything or raise" % label,
+               construct="no os.write in %s" % source.qualname(fn))
+    # every rename publishes a file whose production the rules above have seen: a recognised write-open (or raw os.open) of its source
+    for (rn, rc) in rens:
+        srcs = source.src(rc.args[0])
+        produced = any(oc.args and source.src(oc.args[0]) == srcs for (_, oc) in opens) or any(
+            call_name(c) in ("os.open", "shutil.copyfile", "shutil.copy", "shutil.copy2") and any(source.src(a_) == srcs for a_ in c.args)
+            for c in source.calls_in(fn, include_nested=True)) or any(
+            last_attr(c) in ("write_text", "write_bytes") and isinstance(c.func, ast.Attribute) and srcs in source.src(c.func.value)
+            for c in source.calls_in(fn, include_nested=True))
+        inplace = any(oc.args and any(source.src(oc.args[0]) == source.src(r2.args[1]) for (_, r2) in rens) for (_, oc) in opens)
+        ctx.require(produced or inplace, "C14: %s renames %s but no recognised producer (open for writing, os.open, copy, write_text) of that path is in "
+                              "the function - the write discipline of this file cannot be decided" % (source.qualname(fn), srcs))
     for (on, oc) in opens:
         n += 1
         path_expr = oc.args[0] if oc.args else None
@@ -375,6 +406,7 @@ def run(ctx) -> None:
     ctx.rule("C14.A5-destination-never-removed", "the state file itself is never removed/unlinked/truncated by its writer: only the "
              "atomic rename replaces it (between a remove and the rename no version exists on disk)")
     ctx.rule("C14.A4-serialiser-is-pure", "the serialiser does not modify the object it persists")
+    ctx.rule("C14.A7-complete-writes", "no writer hands bytes to a raw os.write and drops the count it returns (a short write must not be published)")
     ctx.rule("C14.R5-escape-agreement", "keys escaped by Status.writeToStream equal keys unescaped by Status.statusFromFile with inverse codecs; one 'key=value' line per key")
     ctx.assume("os.rename within one directory is atomic (POSIX); durability (fsync) is not part of the property")
     ctx.assume("implicit exceptions are modelled only inside try blocks")
